@@ -18,6 +18,7 @@ from typing_extensions import Literal, Protocol
 from .error_code import ErrorCode
 from .value import (
     AnnotatedValue,
+    AnyValue,
     CanAssignContext,
     DictIncompleteValue,
     KnownValue,
@@ -413,11 +414,20 @@ def check_string_format(
         on_error(node, err, error_code=ErrorCode.bad_format_string)
     for err in fs.accept(args, ctx):
         on_error(node, err, error_code=ErrorCode.bad_format_string)
-    return TypedValue(type(format_str)), maybe_replace_with_fstring(fs, args_node)
+    replacement = maybe_replace_with_fstring(fs, args_node, args, ctx)
+    return TypedValue(type(format_str)), replacement
+
+
+def _known_instance(value: Value, typ: type, ctx: CanAssignContext) -> list[bool]:
+    """For each possible value, whether it is known (not assumed) to be an instance of typ."""
+    return [
+        not isinstance(val, AnyValue) and TypedValue(typ).is_assignable(val, ctx)
+        for val in flatten_values(value, unwrap_annotated=True)
+    ]
 
 
 def maybe_replace_with_fstring(
-    fs: PercentFormatString, args_node: ast.expr
+    fs: PercentFormatString, args_node: ast.expr, args: Value, ctx: CanAssignContext
 ) -> Optional[ast.expr]:
     """If appropriate, emits an error to replace this % format with an f-string."""
     # there are no bytes f-strings
@@ -451,21 +461,38 @@ def maybe_replace_with_fstring(
         if any(not _is_simple_enough(elt) for elt in args_node.elts):
             return None
         substitutions = args_node.elts
+        args = replace_known_sequence_value(args)
+        members = (
+            args.get_member_sequence() if isinstance(args, SequenceValue) else None
+        )
+        values = members or ()
     elif len(fs.specifiers) == 1:
-        if not _is_simple_enough(args_node):
+        # % unpacks a tuple operand, an f-string would print the tuple itself
+        if not _is_simple_enough(args_node) or any(_known_instance(args, tuple, ctx)):
             return None
         substitutions = [args_node]
+        values = [args]
     else:
         return None
     # the linter should have given an error in this case
     if len(substitutions) != len(fs.specifiers) != len(fs.raw_pieces) - 1:
         return None
+    if len(values) != len(substitutions):  # could not tell the operands apart
+        return None
     parts = []
-    for raw_piece, substitution in zip(fs.raw_pieces, substitutions):
+    for raw_piece, substitution, specifier, value in zip(
+        fs.raw_pieces, substitutions, fs.specifiers, values
+    ):
         if raw_piece:
             parts.append(ast.Constant(value=raw_piece))
+        format_spec = None
+        if specifier.conversion_type == "d":
+            # %d turns True into 1 and 2.5 into 2; "{x:d}" does so only for an int
+            if not all(_known_instance(value, int, ctx)):
+                return None
+            format_spec = ast.JoinedStr(values=[ast.Constant(value="d")])
         parts.append(
-            ast.FormattedValue(value=substitution, conversion=-1, format_spec=None)
+            ast.FormattedValue(substitution, conversion=-1, format_spec=format_spec)
         )
     if fs.raw_pieces[-1]:
         parts.append(ast.Constant(value=fs.raw_pieces[-1]))
